@@ -47,7 +47,9 @@ func (m *ControlFile) Close() error {
 			}
 		}
 
+		verifPoint("cf.exists")
 		if Exists(m.path) {
+			verifPoint("cf.remove")
 			if err := os.Remove(m.path); err != nil {
 				return err
 			}
@@ -65,7 +67,9 @@ func (m *ControlFile) CloseWithErrors() []error {
 			}
 		}
 
+		verifPoint("cf.exists")
 		if Exists(m.path) {
+			verifPoint("cf.remove")
 			if err := os.Remove(m.path); err != nil {
 				errs = append(errs, err)
 			}
@@ -91,6 +95,7 @@ func CreateControlFileContext(ctx context.Context, filePath string, fileType Con
 			return nil, err
 		}
 
+		verifPoint("retry.wait")
 		select {
 		case <-ctx.Done():
 			if ctx.Err() == context.Canceled {
@@ -119,11 +124,13 @@ func tryCreateControlFile(filePath string, fileType ControlFileType) (*ControlFi
 }
 
 func TryCreateRLockFile(filePath string) (controlFile *ControlFile, err error) {
+	verifPoint("rlock.check")
 	if LockExists(filePath) {
 		return nil, NewLockError(fmt.Sprintf("failed to create %s file for %q", RLock, filePath))
 	}
 
 	lockFilePath := LockFilePath(filePath)
+	verifPoint("rlock.lock")
 	lfp, err := file.Create(lockFilePath)
 	if err != nil {
 		return nil, NewLockError(fmt.Sprintf("failed to create %s file for %q", RLock, filePath))
@@ -133,6 +140,7 @@ func TryCreateRLockFile(filePath string) (controlFile *ControlFile, err error) {
 		err = NewCompositeError(err, lockFile.Close())
 	}()
 
+	verifPoint("rlock.create")
 	rlockFilePath := RLockFilePath(filePath)
 	fp, e := file.Create(rlockFilePath)
 	if e != nil {
@@ -143,17 +151,20 @@ func TryCreateRLockFile(filePath string) (controlFile *ControlFile, err error) {
 }
 
 func TryCreateLockFile(filePath string) (*ControlFile, error) {
+	verifPoint("lock.check")
 	if LockExists(filePath) || RLockExists(filePath) {
 		return nil, NewLockError(fmt.Sprintf("failed to create %s file for %q", Lock, filePath))
 	}
 
 	lockFilePath := LockFilePath(filePath)
+	verifPoint("lock.create")
 	fp, err := file.Create(lockFilePath)
 	if err != nil {
 		return nil, NewLockError(fmt.Sprintf("failed to create %s file for %q", Lock, filePath))
 	}
 	lockFile := NewControlFile(lockFilePath, fp)
 
+	verifPoint("lock.recheck")
 	if RLockExists(filePath) {
 		err := NewLockError(fmt.Sprintf("failed to create %s file for %q", Lock, filePath))
 		err = NewCompositeError(err, lockFile.Close())
@@ -165,6 +176,7 @@ func TryCreateLockFile(filePath string) (*ControlFile, error) {
 
 func TryCreateTempFile(filePath string) (*ControlFile, error) {
 	tempFilePath := TempFilePath(filePath)
+	verifPoint("temp.create")
 	fp, err := file.Create(tempFilePath)
 	if err != nil {
 		return nil, NewLockError(fmt.Sprintf("failed to create %s file for %q", Temporary, filePath))
